@@ -2,12 +2,13 @@ import UF.Model.Cosmetic
 /-
   Reference for C15: selectors of applicable, non-excepted element-hiding rules.
 -/
-namespace UF
+namespace UF.B
+open UF UF.Bytes
 
 /-- `r` applies to `host` and no exception with the same selector applies to `host`. -/
 def cosApplicable (ext : Ext) (L : List CosRule) (host : Bytes) (r : CosRule) : Bool :=
-  !r.whitelist && r.matches ext host &&
-  !(L.any fun e => e.whitelist && e.content == r.content && e.matches ext host)
+  !r.whitelist && cosMatches ext r host &&
+  !(L.any fun e => e.whitelist && e.content == r.content && cosMatches ext e host)
 
 def specCosmetic (ext : Ext) (L : List CosRule) (host : Bytes)
     (includeCSS _includeJS includeGenericCSS : Bool) : List Bytes × List Bytes :=
@@ -15,4 +16,12 @@ def specCosmetic (ext : Ext) (L : List CosRule) (host : Bytes)
   (if includeCSS && includeGenericCSS then (app.filter (·.permDomains.isEmpty)).map (·.content) else [],
    if includeCSS then (app.filter (!·.permDomains.isEmpty)).map (·.content) else [])
 
-end UF
+end UF.B
+
+namespace UF.B
+open UF UF.Bytes
+
+/-- Parser guarantee (`loadDomains`): no permitted domain of a cosmetic rule is the empty string. -/
+def CosDomainsWF (L : List CosRule) : Prop := ∀ r ∈ L, ∀ d ∈ r.permDomains, d ≠ []
+
+end UF.B
